@@ -413,6 +413,30 @@ def make_source(rng, kind: str, ml, ap: bool = False):
         a.atype = ml.AtomType.AttachmentPoint
         # distinct positions so that the join geometry is defined
         m.coords = np.array([[1.5 * i + 0.25 * (i % 2), 0.5 * (i % 3), 0.75 * ((i * i) % 4)] for i in range(m.n_atoms)])
+    if kind in ("Structure", "Molecule") and not ap and m.n_atoms <= 8 and rng.below(100) < 30:
+        # a source with an edit history: atoms added, deleted, hydrogens added before it is copied
+        with warnings.catch_warnings():
+            warnings.simplefilter("ignore")
+            old = np.seterr(all="ignore")
+            try:
+                for _ in range(rng.range(1, 3)):
+                    e = rng.below(3)
+                    if e == 0 and m.n_atoms > 1:
+                        m.del_atom(rng.below(m.n_atoms))
+                    elif e == 1:
+                        a = m.new_atom(ml.Element.C, coord=[rng.range(-9, 9) / 2.0, 1.0, 2.0])
+                        a.attrib = rand_attrib(rng, 2, 40)
+                        if m.n_atoms > 1:
+                            m.connect(rng.below(m.n_atoms - 1), a)
+                    else:
+                        try:
+                            m.add_implicit_hydrogens(m.atoms[rng.below(m.n_atoms)])
+                        except Exception:
+                            pass
+            finally:
+                np.seterr(**old)
+        if np.isnan(np.asarray(m.coords)).any():
+            m.coords = np.nan_to_num(np.asarray(m.coords), nan=0.5)
     if kind == "Conformer":
         return m[rng.below(m.n_conformers)]
     return m
@@ -626,6 +650,17 @@ def mutations(o, ml):
                 finally:
                     np.seterr(**old)
         muts.append(("add_implicit_hydrogens", addh))
+    if name in ("CartesianGeometry", "Structure", "Molecule", "ConformerEnsemble") and o.n_atoms:
+        muts.append(("scale(2)", lambda: o.scale(2.0)))
+    if name == "ConformerEnsemble" and o.n_atoms:
+        muts.append(("translate", lambda: o.translate([1.0, 2.0, 3.0])))
+    if name in ("Structure", "Molecule") and o.n_atoms:
+        muts.append(("new_atom", lambda: o.new_atom(ml.Element.F, coord=[7.0, 7.0, 7.0])))
+        muts.append(("connect", lambda: o.connect(0, o.n_atoms - 1)))
+    if name != "Conformer":
+        muts.append(("label_atoms", lambda: o.label_atoms("{e}{n1}x")))
     if name in ("Promolecule", "Connectivity", "CartesianGeometry", "Structure", "Molecule") and o.n_atoms:
         muts.append(("del_atom(0)", lambda: o.del_atom(0)))
+    if name in ("Connectivity", "Structure", "Molecule", "ConformerEnsemble") and len(o.bonds):
+        muts.append(("del_bond", lambda: o.del_bond(o.bonds[0])))
     return muts
